@@ -24,10 +24,10 @@ def seed():
     return int(os.environ.get('VERIF_SEED', '1') or 1)
 
 
-def _q(pid, reg, name, defines=None, covers=(999,), timeout=900, desc='', unwind=66, symbolic=None, extra_header=''):
+def _q(pid, reg, name, defines=None, covers=(999,), timeout=900, desc='', unwind=66, symbolic=None, extra_header='', checks='none'):
     d = {'POL': 1}
     d.update(defines or {})
-    return Query(name, 'update.cpp', d, unwind=unwind, models=True, checks='none', covers=covers, timeout=timeout,
+    return Query(name, 'update.cpp', d, unwind=unwind, models=True, checks=checks, covers=covers, timeout=timeout,
                  gen_files={'registry.h': reg.header(extra_header)}, desc=desc or ('real update + resolve on registry ' + reg.name),
                  symbolic=symbolic or 'dynamic class of every argument of every method',
                  bounds={'registry': reg.describe(), 'unwind': unwind, 'container_capacity': 8, 'pointer_vector_capacity': 32,
